@@ -409,3 +409,22 @@ define void @h() !dbg !6 {
 !5 = distinct !{!0, !2}
 !6 = distinct !DISubrange(count: 4)
 !9 = !{i32 2, !"Debug Info Version", i32 3}
+;;; ATOM md/di-composite-runtime-lang-without-enumerator
+!llvm.module.flags = !{!0}
+!llvm.dbg.cu = !{!1}
+!0 = !{i32 2, !"Debug Info Version", i32 3}
+!1 = distinct !DICompileUnit(language: DW_LANG_C99, file: !2, emissionKind: FullDebug, retainedTypes: !3)
+!2 = !DIFile(filename: "a.c", directory: "/")
+!3 = !{!4, !5}
+!4 = !DICompositeType(tag: DW_TAG_structure_type, name: "S", file: !2, size: 32, runtimeLang: 99)
+!5 = !DICompositeType(tag: DW_TAG_structure_type, name: "T", file: !2, size: 32, runtimeLang: DW_LANG_ObjC)
+;;; ATOM md/di-composite-vtable-holder-is-a-typedef
+!llvm.module.flags = !{!0}
+!llvm.dbg.cu = !{!1}
+!0 = !{i32 2, !"Debug Info Version", i32 3}
+!1 = distinct !DICompileUnit(language: DW_LANG_C_plus_plus, file: !2, emissionKind: FullDebug, retainedTypes: !3)
+!2 = !DIFile(filename: "a.cpp", directory: "/")
+!3 = !{!4, !5}
+!4 = !DIDerivedType(tag: DW_TAG_typedef, name: "B", file: !2, baseType: !6)
+!5 = !DICompositeType(tag: DW_TAG_class_type, name: "D", file: !2, size: 64, vtableHolder: !4, identifier: "_ZTS1D")
+!6 = !DICompositeType(tag: DW_TAG_class_type, name: "Base", file: !2, size: 64, vtableHolder: !6, identifier: "_ZTS4Base")
